@@ -92,6 +92,9 @@ func (r *Reader) readBlock() error {
 			zstdReader, err := zstd.NewReader(nil,
 				zstd.WithDecoderConcurrency(1),
 				zstd.WithDecoderLowmem(true),
+				// Frame content size is allocated upfront by DecodeAll, so it
+				// should be limited to same value as data size in block header.
+				zstd.WithDecoderMaxMemory(maxDataSize),
 			)
 			if err != nil {
 				return errors.Wrap(err, "zstd")
